@@ -17,7 +17,7 @@
 (* and never stops early: every line is examined.  The run is accepted by  *)
 (* the POSTCONDITION when all lines were consumed.                         *)
 (***************************************************************************)
-EXTENDS LsmProps, LsmBlob, Json, IOUtils
+EXTENDS LsmProps, LsmBlob, LsmFifo, Json, IOUtils
 
 Rec == ndJsonDeserialize(IOEnv.TRACE)
 NKeys == atoi(IOEnv.NKEYS)
@@ -325,6 +325,21 @@ FifoOk(i) ==
        \* nothing is removed while the tree is within its size limit and TTL
        /\ (r.info.size <= r.info.limit /\ \A t \in l0 : ~expired(t)) => D = {}
 
+\* C19 conformance: the real strategy chose what the transcribed one (LsmFifo!FifoChoose)
+\* chooses on the recorded L0 tables (creation times in clock seconds)
+FifoConforms(i) ==
+    LET r    == Rec[i]
+        prs  == Rec[StIdx(i - 1)].st
+        sv   == prs.hist[Len(prs.hist)]
+        flat == FlattenSeq(sv.lv[1])
+        tsq  == [j \in 1..Len(flat) |->
+                   LET m == ById(prs.tbls, flat[j]).meta IN
+                   [id |-> flat[j], created |-> m.created, size |-> m.size, bb |-> m.bbytes]]
+        D    == IF "choice" \in DOMAIN r.info /\ r.info.choice[1] = 3
+                THEN {r.info.choice[j] : j \in 4..Len(r.info.choice)} ELSE {}
+        ttl  == IF "ttl" \in DOMAIN r.op THEN r.op.ttl ELSE 0
+    IN D = FifoChoose(tsq, r.info.size, r.info.limit, ttl, r.info.now)
+
 \* the model's read algorithm on the recorded structure agrees with the real read
 ModelReadAgrees(r) ==
     LET st == StOf(r.st) IN
@@ -542,6 +557,7 @@ StateChecks(i, a, cfg) ==
     /\ (FilesLive(r.st)         \/ Say("VIOL", "FILES", i, r.st.ls))
     /\ (DirClean(r.st)          \/ Say("VIOL", "DIRCLEAN", i, <<r.st.ls, r.st.hist[1].lv, r.st.hist[1].blobs>>))
     /\ (r.op.op # "fifo" \/ FifoOk(i) \/ Say("VIOL", "FIFO", i, r.info))
+    /\ (r.op.op # "fifo" \/ FifoConforms(i) \/ Say("DRIFT", "fifo", i, r.info))
     /\ (PStructureSound(st)     \/ Say("VIOL", "STRUCT", i, st.hist))
     /\ (MetaOk(r.st)            \/ Say("VIOL", "META", i, r.st.tbls))
     /\ (HiOk(r)                 \/ Say("VIOL", "HI", i, r.obs.hi))
